@@ -306,8 +306,33 @@ func run(r *simkit.Run) {
 		if cfg.Prune != 0 {
 			wBurst = 0 // (forks stay shallow on a pruned node)
 		}
-		ev := simkit.Pick(c, "event", wMine, wDeliver, 4, 4, 3, 3, 4, 2, wInv, wInv, wHdr, wQry, wAri, wVote, wSub, wUns, wRem, wPM, wTm, wMin, wClone, wBurst)
+		wNest := 0
+		if prof == "headers" && os.Getenv("VERIF_MODE") != "determinism" {
+			wNest = 2
+		}
+		ev := simkit.Pick(c, "event", wMine, wDeliver, 4, 4, 3, 3, 4, 2, wInv, wInv, wHdr, wQry, wAri, wVote, wSub, wUns, wRem, wPM, wTm, wMin, wClone, wBurst, wNest)
 		switch ev {
+		case 22:
+			// nested invalidations on a side branch a <- b <- c: first the
+			// tip c, then a; afterwards a header on top of b must be refused
+			var tipc *MBlock
+			for _, x := range w.Blocks[1:] {
+				if len(x.Children) == 0 && x.Height >= 3 && s.accepted(x) && !x.IsAncestorOf(s.n.Tip()) && x.ChainValid() && !s.excluded(x) &&
+					!x.Parent.IsAncestorOf(s.n.Tip()) && !x.Parent.Parent.IsAncestorOf(s.n.Tip()) && s.accepted(x.Parent) && s.accepted(x.Parent.Parent) {
+					tipc = x
+				}
+			}
+			if tipc == nil {
+				continue
+			}
+			bmid, a := tipc.Parent, tipc.Parent.Parent
+			s.invalidate(tipc)
+			s.invalidate(a)
+			d := w.Build(bmid, BlockOpts{})
+			r.Event("mine", "%v on %v (header on the middle of a twice-invalidated branch)", d, bmid)
+			s.DeliverHeader(d)
+			s.CheckState("header")
+			r.Probe("nested-invalidation-scenario")
 		case 21:
 			// a branch that forks below the best block and overtakes it only
 			// with its last block: every block but the last is stored as a
@@ -499,37 +524,7 @@ func run(r *simkit.Run) {
 			if len(cands) == 0 {
 				continue
 			}
-			b := cands[c.Intn(len(cands), "invalidate")]
-			if s.markedInvalid == nil {
-				s.markedInvalid = map[*MBlock]bool{}
-			}
-			wasMain := b.IsAncestorOf(s.n.Tip())
-			// InvalidateBlock on a block the node already found invalid by
-			// itself is a no-op: descendants are not (re)marked then
-			_, _, failed, invAnc, _ := n.Chain.VerifNodeStatus(&b.Hash)
-			for _, d := range w.Blocks[1:] {
-				if failed || invAnc {
-					r.Probe("invalidate-already-known-invalid")
-					break
-				}
-				if b.IsAncestorOf(d) && s.nodeKnown(d) && (!wasMain || d.IsAncestorOf(s.n.Tip())) {
-					s.markedInvalid[d] = true
-				}
-			}
-			err := n.Chain.InvalidateBlock(&b.Hash)
-			s.everInv = true
-			if !s.excluded(b) {
-				// invalidating a block that is already excluded through an
-				// ancestor changes nothing
-				s.manualInv[b] = true
-			}
-			r.Event("invalidate", "%v main=%v err=%v", b, b.IsAncestorOf(s.prevTip), err != nil)
-			r.Sig("invalidate")
-			r.Probe("invalidate")
-			if err != nil && !isRule(err) {
-				r.Violate("C02", "invalidate-error", "invalidate-returns-internal-error", "InvalidateBlock(%v): %v", b, err)
-			}
-			s.CheckState("invalidate")
+			s.invalidate(cands[c.Intn(len(cands), "invalidate")])
 		case 9: // reconsider
 			var cands []*MBlock
 			for _, b := range w.Blocks[1:] {
@@ -722,6 +717,43 @@ func run(r *simkit.Run) {
 }
 
 func n0tip(s *Sim) *MBlock { return s.n.Tip() }
+
+
+// invalidate is the operator's InvalidateBlock on a block the node accepted,
+// with the model's bookkeeping.
+func (s *Sim) invalidate(b *MBlock) {
+	r := s.r
+	if s.markedInvalid == nil {
+		s.markedInvalid = map[*MBlock]bool{}
+	}
+	wasMain := b.IsAncestorOf(s.n.Tip())
+	// InvalidateBlock on a block the node already found invalid by
+	// itself is a no-op: descendants are not (re)marked then
+	_, _, failed, invAnc, _ := s.n.Chain.VerifNodeStatus(&b.Hash)
+	for _, d := range s.w.Blocks[1:] {
+		if failed || invAnc {
+			r.Probe("invalidate-already-known-invalid")
+			break
+		}
+		if b.IsAncestorOf(d) && s.nodeKnown(d) && (!wasMain || d.IsAncestorOf(s.n.Tip())) {
+			s.markedInvalid[d] = true
+		}
+	}
+	err := s.n.Chain.InvalidateBlock(&b.Hash)
+	s.everInv = true
+	if !s.excluded(b) {
+		// invalidating a block that is already excluded through an
+		// ancestor changes nothing
+		s.manualInv[b] = true
+	}
+	r.Event("invalidate", "%v main=%v err=%v", b, b.IsAncestorOf(s.prevTip), err != nil)
+	r.Sig("invalidate")
+	r.Probe("invalidate")
+	if err != nil && !isRule(err) {
+		r.Violate("C02", "invalidate-error", "invalidate-returns-internal-error", "InvalidateBlock(%v): %v", b, err)
+	}
+	s.CheckState("invalidate")
+}
 
 // pickBest is the best fully valid model block.
 func (s *Sim) pickBest() *MBlock {
